@@ -6,7 +6,7 @@ Import ListNotations.
 (** does a condition mention variable [x] *)
 Fixpoint ctests (x : nat) (c : cond) : bool :=
   match c with
-  | CType y _ | CEqNil y | CNeNil y | CVar y => Nat.eqb x y
+  | CType y _ | CEqNil y | CNeNil y | CVar y | CTypeF y _ | CEqNilF y | CNeNilF y => Nat.eqb x y
   | COpq _ => false
   | CNot a => ctests x a
   | CAnd a b | COr a b => ctests x a || ctests x b
